@@ -185,10 +185,26 @@ def run_conn(cases, tag, release=False, jobs=16):
                     c.reads = saved
                 else:
                     f.write(c.render())
-    rc, out = build.sh([build.driver_bin(), "conn", cf, aux, model], timeout=3000)
-    if rc != 0:
-        raise RuntimeError("driver failed rc=%d: %s" % (rc, out[-2000:]))
-    mo = split_obs(model)
+    # the model runs single-threaded: shard the case file over several driver processes
+    txt = open(cf).read()
+    blocks = ["case " + b for b in txt.split("\ncase ")]
+    blocks[0] = blocks[0][5:] if blocks[0].startswith("case case ") else blocks[0]
+    if blocks and blocks[0].startswith("case case "):
+        blocks[0] = blocks[0][5:]
+    nsh = min(jobs, max(1, len(blocks) // 8))
+    procs = []
+    for k in range(nsh):
+        sf = os.path.join(d, "shard%d.txt" % k); so = os.path.join(d, "shard%d.obs" % k)
+        with open(sf, "w") as f:
+            for b in blocks[k::nsh]:
+                f.write(b if b.endswith("\n") else b + "\n")
+        procs.append((subprocess.Popen([build.driver_bin(), "conn", sf, aux, so], stdout=subprocess.PIPE, stderr=subprocess.STDOUT), so))
+    mo = {}
+    for pr, so in procs:
+        out, _ = pr.communicate(timeout=3000)
+        if pr.returncode != 0:
+            raise RuntimeError("driver failed rc=%d: %s" % (pr.returncode, out.decode("utf-8", "replace")[-2000:]))
+        mo.update(split_obs(so))
     for cid in io:
         io[cid] = [l for l in io[cid] if not l.startswith("eff|")]
     return io, mo
